@@ -6,6 +6,7 @@
 #include <cstdio>
 #include <cstdlib>
 #include <cstring>
+#include <cerrno>
 #include <cstdint>
 #include <csignal>
 #include <unistd.h>
@@ -64,17 +65,23 @@ inline void block_put(void *q, size_t bytes)
             if (!s[i].p) { s[i].p = q; s[i].bytes = bytes; return; }
     free(q);
 }
+// The start of the data is placed at a varying offset from the (16-byte aligned) start of the allocation: g_align
+// cycles through 0..7 from case to case, so every operation is run on operands at every address alignment modulo 8
+// (the end of the data still coincides with the end of the allocation).  Code that treats the unaligned head of its
+// input specially (word-at-a-time loops) is wrong only for some (alignment, length) combinations.
+static int g_align = 0;
 template <class T>
 struct Block {
     T *p = nullptr;
     size_t n = 0;
     bool null = false;
-    size_t bytes = 0;
+    size_t bytes = 0;          // size of the whole allocation
+    void *base = nullptr;
     Block() {}
     Block(const Block &) = delete;
     Block &operator=(const Block &) = delete;
-    Block(Block &&o) : p(o.p), n(o.n), null(o.null), bytes(o.bytes) { o.p = nullptr; }
-    ~Block() { if (p) block_put(p, bytes); }
+    Block(Block &&o) : p(o.p), n(o.n), null(o.null), bytes(o.bytes), base(o.base) { o.p = nullptr; o.base = nullptr; }
+    ~Block() { if (base) block_put(base, bytes); }
     const T *data() const { return null ? nullptr : p; }
     size_t size() const { return n; }
 };
@@ -98,8 +105,11 @@ Block<T> units(const std::string &tok, size_t extra = 0)
     size_t n = (tok == ".") ? 0 : tok.size() / w;
     b.n = n;
     // malloc(0) may return a unique pointer: keep at least the exact byte count, never more
-    b.bytes = (n + extra) * sizeof(T) ? (n + extra) * sizeof(T) : 1;
-    b.p = static_cast<T *>(block_get(b.bytes));
+    const size_t off = (size_t(g_align) / sizeof(T)) * sizeof(T);      // a multiple of the element size, below 8
+    const size_t payload = (n + extra) * sizeof(T) ? (n + extra) * sizeof(T) : 1;
+    b.bytes = off + payload;
+    b.base = block_get(b.bytes);
+    b.p = reinterpret_cast<T *>(static_cast<char *>(b.base) + off);
     for (size_t i = 0; i < n; ++i) {
         uint64_t v = 0;
         for (size_t k = 0; k < w; ++k) v = (v << 4) | hexv(tok[i * w + k]);
@@ -194,6 +204,8 @@ inline int run_main(int argc, char **argv, const Dispatch &dispatch)
         Args a(tok.begin() + 2, tok.end());
         std::string out;
         alarm(g_case_timeout);
+        g_align = int(idx % 8);
+        errno = ERANGE;        // whatever an earlier call left in errno must not matter to the next one
         if (g_decoy && tok[1].find("enum") == std::string::npos && tok[1].find("digest") == std::string::npos) {
             Args dcy;
             for (const std::string &t : a) dcy.push_back(decoy_token(t));
